@@ -142,6 +142,12 @@ FamC03a(dummy) ==
               t \in BOOLEAN, sp \in BOOLEAN,
               pr \in IF Tier = "quick" THEN {q \in ProfC03 : Len(q) <= 2 \/ q = <<2, 1, 2>>}
                      ELSE Profiles(2, 3) \cup {<<2, 1, 2>>, <<1, 2, 2>>, <<2, 2, 2>>, <<3, 1, 2>>}}}
+\* the barrier while the construction of step 0 is suspended by an awaiting initial expression (second branch): the first
+\* branch's task runs ahead, but nothing of step 1 starts before the late branch is through step 0
+FamC03w(dummy) ==
+  {Run(P, <<>>, ItemIds(P, {"and_then"}) \cup {IidOf(1) + 9}) :
+     P \in {LET In(b) == IF b = 1 THEN "await" ELSE "expr" IN Build(Kind(TRUE, t, sp), "res", pr, StepC03, NoName, In, "none") :
+              t \in BOOLEAN, sp \in BOOLEAN, pr \in IF Tier = "quick" THEN {<<2, 1>>, <<1, 2>>} ELSE {<<2, 1>>, <<1, 2>>, <<2, 2>>}}}
 \* sequential macros and small concurrent ones with the full history (order invariants)
 FamC03h(dummy) ==
   {Run(P, <<>>, IF P.kind.spawn \/ P.kind.async THEN ItemIds(P, {"and_then"}) ELSE {}) :
@@ -459,7 +465,7 @@ Runs(dummy) ==
             [] Family = "C05" -> FamC05(0)
             [] Family = "C05a" -> FamC05a(0)
             [] Family = "C03s" -> FamC03s(0)
-            [] Family = "C03a" -> FamC03a(0)
+            [] Family = "C03a" -> FamC03a(0) \cup FamC03w(0)
             [] Family = "C03h" -> FamC03h(0)
             [] Family = "C03v" -> FamC03v(0)
             [] Family = "C06" -> FamC06(0)
